@@ -74,15 +74,15 @@ def concat(ctx, name, paths):
     return dst
 
 
-def pick_cases(exports, rnd, per_kind):
+def pick_cases(exports, rnd, per_kind, cut_extra=0):
     by = collections.defaultdict(list)
-    for e in exports:
+    for e in sorted(exports, key=lambda x: json.dumps(x, sort_keys=True)):   # TLC's export order depends on worker scheduling
         by[e.get("kind", "?")].append(e)
     res = []
     for k in sorted(by):
         lst = by[k]
         rnd.shuffle(lst)
-        res += lst[:per_kind]
+        res += lst[:per_kind + (cut_extra if "cut" in k else 0)]
     rnd.shuffle(res)
     return res, {k: len(v) for k, v in by.items()}
 
@@ -292,7 +292,8 @@ def main(ctx):
     th.start()
 
     # 1. bounded models: refinement on every transition + export
-    cfgs = ["MC_Mempool_quick.cfg"] if quick else ["MC_Mempool_thorough.cfg", "MC_Mempool_unlimited.cfg", "MC_Mempool_ric.cfg"]
+    # MC_Mempool_gas: three kinds (a ceremony type that weighs gas) so that the cap can bind in the MIDDLE of a priority run
+    cfgs = ["MC_Mempool_quick.cfg", "MC_Mempool_gas.cfg"] if quick else ["MC_Mempool_thorough.cfg", "MC_Mempool_unlimited.cfg", "MC_Mempool_ric.cfg", "MC_Mempool_gas.cfg"]
     per_kind = 6 if quick else 16
     states = trans = 0
     cases, kinds_all, models = [], {}, []
@@ -313,7 +314,8 @@ def main(ctx):
         if not r.ok:
             raise vlib.CheckError("design-level Mempool model does not refine MempoolAbs / breaks %s (model-only, not a verdict):\n%s"
                                   % (r.invariant, (r.error or "")[:2000]))
-        sel, kinds = pick_cases(r.exports, rnd, per_kind)
+        gas = cfg == "MC_Mempool_gas.cfg"
+        sel, kinds = pick_cases(r.exports, rnd, 1 if gas and quick else per_kind, cut_extra=40 if gas else 0)
         ctx.log("model %s: %d generated / %d distinct, depth %d, %.0fs; %d transitions exported in %d kinds; replaying %d"
                 % (cfg, r.generated, r.distinct, r.depth, r.wall, len(r.exports), len(kinds), len(sel)))
         states += r.distinct
